@@ -484,6 +484,59 @@ def ob_deprecated():
     return h
 
 
+DECLS = [   # (declaration, expected declared default - what the option has when no other source sets it; None = the declaration is rejected)
+    ("option('o', type : 'array', choices : ['x', 'y', 'z'], value : [])", []),
+    ("option('o', type : 'array', choices : ['x', 'y', 'z'])", ['x', 'y', 'z']),
+    ("option('o', type : 'array', choices : ['x', 'y', 'z'], value : ['y'])", ['y']),
+    ("option('o', type : 'array', value : [])", []),
+    ("option('o', type : 'array', choices : ['x'], value : ['q'])", None),
+    ("option('o', type : 'string', value : '')", ''),
+    ("option('o', type : 'string')", ''),
+    ("option('o', type : 'integer', value : 0, min : -1, max : 1)", 0),
+    ("option('o', type : 'integer', value : 0, min : 1)", None),
+    ("option('o', type : 'boolean', value : false)", False),
+    ("option('o', type : 'boolean')", True),
+    ("option('o', type : 'combo', choices : ['b', 'a'])", 'b'),
+    ("option('o', type : 'combo', choices : ['b', 'a'], value : 'a')", 'a'),
+    ("option('o', type : 'feature')", 'auto'),
+    ("option('o', type : 'feature', value : 'disabled')", 'disabled'),
+]
+
+
+def ob_declared_default():
+    """the lowest rung of the precedence ladder - "then the declared default" - through the real option-file interpreter (optinterpreter.OptionInterpreter on a
+    real file): an option declared with an explicit value has that value, FALSY ones included ([] , '', 0, false); without one it has the documented default of
+    its type; a default violating the declaration's own choices / range is rejected. A value from the command line (symbolic presence) still wins"""
+    def h():
+        import tempfile, os as _os
+        import mesonbuild.interpreter        # first: importing optinterpreter on its own runs into a circular import at this commit
+        from mesonbuild import optinterpreter
+        decl, exp = DECLS[choose(len(DECLS), 'declaration')]
+        d = tempfile.mkdtemp(prefix='c07opt')
+        try:
+            fn = _os.path.join(d, 'meson.options')
+            with open(fn, 'w') as f: f.write(decl + "\n")
+            store = new_store()
+            oi = optinterpreter.OptionInterpreter(store, '')
+            try:
+                oi.process(fn)
+            except ME:
+                check(exp is None, 'a declaration is rejected only if its default violates its own choices / range'); cover('rejected'); return
+            check(exp is not None, 'a default that violates the declared choices / range is rejected')
+            if exp is None: return
+            k = O.OptionKey('o', subproject='')
+            for key, opt in oi.options.items(): store.add_project_option(key, opt)
+            given = decide(sym_bool('command line sets it')) and isinstance(exp, list) and 'choices' in decl
+            cmd = {k: ['z']} if given else {}
+            store.initialize_from_top_level_project_call({}, cmd, {})
+            got = store.get_value_for(k)
+            check(got == (['z'] if given else exp), 'the effective value is the command line value, else exactly the declared default')
+            cover('accepted')
+        finally:
+            import shutil; shutil.rmtree(d, ignore_errors=True)
+    return h
+
+
 def obligations(tier):
     out = [Obligation('top/integer', ob_top_int(), dict(sources='2^3', values='-9..9 as int or 1-digit string', range='symbolic in -5..5'), labels=('accepted', 'rejected'), max_paths=2000000)]
     for kind in ('bool', 'combo', 'feature', 'string'):
@@ -494,6 +547,7 @@ def obligations(tier):
     out.append(Obligation('top/prefix', ob_prefix(), dict(sources='2^3', prefixes=PFX), labels=('done',)))
     out.append(Obligation('top/buildtype', ob_buildtype(), dict(buildtype='all', source='any of 3', debug_opt='given or not, written before or after buildtype'), labels=('done',)))
     out.append(Obligation('subproject/buildtype', ob_buildtype_sub(), dict(buildtype='all', source="the subproject's project() | subproject() call | command line sub:opt", debug_opt='given or not, written before or after buildtype'), labels=('done',)))
+    out.append(Obligation('declared-default', ob_declared_default(), dict(real='optinterpreter.OptionInterpreter.process on a real option file, OptionStore.add_project_option / initialize_from_top_level_project_call', declarations=len(DECLS), kinds='array (with / without choices, empty / absent / invalid default), string, integer, boolean, combo, feature'), labels=('accepted', 'rejected')))
     out.append(Obligation('deprecated', ob_deprecated(), dict(forms='dict on feature | dict on array | list on combo | renamed option', value='symbolic among valid, deprecated and invalid spellings; given as a string, a one-element list, a two-element list or an empty list'), labels=('accepted', 'rejected')))
     out.append(Obligation('yielding/kinds', ob_yield_kinds(), dict(kinds='boolean, integer -2..2, string <=1, feature, combo, array', parent='symbolic value, then set from the command line'),
                           labels=('yields', 'different-type'), max_paths=2000000))
